@@ -286,6 +286,7 @@ package logqlmetric
 //@   ensures[smallest-first] ret1 == nil && (old(expr.Op) == logql.VectorOpBottomk || old(expr.Op) == logql.VectorOpSort) ==> as[*vectorAggHeapIterator](ret0).less(x, y) == x.Less(y) && as[*vectorAggHeapIterator](ret0).greater(x, y) == x.Greater(y)
 //@   ensures[largest-first]  ret1 == nil && (old(expr.Op) == logql.VectorOpTopk || old(expr.Op) == logql.VectorOpSortDesc) ==> as[*vectorAggHeapIterator](ret0).less(x, y) == x.Greater(y) && as[*vectorAggHeapIterator](ret0).greater(x, y) == x.Less(y)
 //@   ensures[heap-order-is-total-on-distinct-series] ret1 == nil && typeis[*vectorAggHeapIterator](ret0) ==> (!as[*vectorAggHeapIterator](ret0).less(x, y) && !as[*vectorAggHeapIterator](ret0).less(y, x) ==> same(x.Set, y.Set))
+//@   ensures[heap-comparators-are-inverses] ret1 == nil && typeis[*vectorAggHeapIterator](ret0) ==> as[*vectorAggHeapIterator](ret0).greater(x, y) == as[*vectorAggHeapIterator](ret0).less(y, x)
 //@   ensures[limit] ret1 == nil && typeis[*vectorAggHeapIterator](ret0) ==> as[*vectorAggHeapIterator](ret0).limit == ite(old(expr.Parameter) == nil, -1, old(*expr.Parameter))
 
 //@ func (*vectorAggIterator).Next
